@@ -413,10 +413,47 @@ pub fn gen_pair(rng: &mut Rng, rec: &mut Recorder) -> Pair {
         }
         dedup_namespaces(&mut am);
     }
-    Pair {
-        a: wrap(am),
-        b: wrap(bm),
+    // module-level A2ML and IF_DATA on none / one / both sides: A2ML is taken from B only if A has none,
+    // IF_DATA is taken from B (completely) only if A has none at all
+    let mut bm = bm;
+    let a2ml_texts = ["\n block \"IF_DATA\" taggedunion { \"XCP\" struct { int; }; };\n", "\n block \"IF_DATA\" taggedunion { \"CCP\" struct { long; }; \"XCP\" (int)*; };\n"];
+    let if_data_of = |marker: u32, n: usize| -> Vec<a2lfile::IfData> {
+        let mut t = String::new();
+        for k in 0..n {
+            t.push_str(&format!("/begin IF_DATA {} {} /begin SEG {k} /end SEG /end IF_DATA\n", if k == 0 { "XCP" } else { "CCP" }, marker + k as u32));
+        }
+        match a2lfile::load_fragment(&t, None) {
+            Ok(m) => m.if_data,
+            Err(_) => Vec::new(),
+        }
+    };
+    if rng.coin() {
+        bm.a2ml = Some(a2lfile::A2ml::new(a2ml_texts[rng.below(2)].to_string()));
+        rec.bump("pair.B_has_A2ML");
     }
+    if rng.chance(2, 3) {
+        bm.if_data = if_data_of(700, rng.urange(1, 2));
+        rec.bump("pair.B_has_IF_DATA");
+    }
+    if overlap != 0 {
+        if rng.coin() {
+            am.a2ml = Some(a2lfile::A2ml::new(a2ml_texts[rng.below(2)].to_string()));
+            rec.bump("pair.A_has_A2ML");
+        }
+        if rng.chance(1, 3) {
+            am.if_data = if_data_of(800, rng.urange(1, 2));
+            rec.bump("pair.A_has_IF_DATA");
+        } else if am.a2ml.is_some() && !bm.if_data.is_empty() {
+            rec.bump("pair.A_has_A2ML_but_no_IF_DATA_and_B_has_IF_DATA");
+        }
+    }
+    let mut a = wrap(am);
+    // the destination may have been sorted before (sorting reorders the lists and their name index)
+    if rng.chance(1, 3) {
+        a.sort();
+        rec.bump("pair.A_sorted_before_merge");
+    }
+    Pair { a, b: wrap(bm) }
 }
 
 fn witness(a: &A2lFile, b: &A2lFile, note: &str) -> Json {
@@ -561,6 +598,25 @@ fn check_conservation(rec: &mut Recorder, a0: &A2lFile, b0: &A2lFile, r: &A2lFil
             );
             return;
         }
+    }
+    // module-level A2ML / IF_DATA: A's stay as they are; B's are taken over where A has none
+    if ma.a2ml.is_some() {
+        if mr.a2ml != ma.a2ml {
+            rec.violation("A2ML of A changed by the merge", "", witness(a0, b0, ""));
+        }
+    } else if mr.a2ml != mb.a2ml {
+        rec.violation("A2ML of B not taken over although A has none", "", witness(a0, b0, ""));
+    }
+    if !ma.if_data.is_empty() {
+        if mr.if_data != ma.if_data {
+            rec.violation("module-level IF_DATA of A changed by the merge", "", witness(a0, b0, ""));
+        }
+    } else if mr.if_data != mb.if_data {
+        rec.violation(
+            "module-level IF_DATA of B not taken over although A has none",
+            &format!("A has A2ML: {}, B has A2ML: {}; result has {} IF_DATA blocks, B has {}", ma.a2ml.is_some(), mb.a2ml.is_some(), mr.if_data.len(), mb.if_data.len()),
+            witness(a0, b0, ""),
+        );
     }
     // singletons of A unchanged; singletons only in B taken over
     let singles: [(&str, bool, bool, bool); 3] = [
@@ -742,6 +798,11 @@ pub fn run_c08(args: &Args, rec: &mut Recorder) {
                     ..ModCfg::default()
                 };
                 let c0 = wrap(Gen::new(rng, c_cfg).module("mc"));
+                if rng.coin() {
+                    // what an application does between two merges: give the new elements their place
+                    a.sort_new_items();
+                    rec.bump("chain.sort_new_items_between_merges");
+                }
                 let r1 = a.clone();
                 let mut c = c0.clone();
                 if do_merge(rec, &mut a, &mut c, &r1, &c0) {
@@ -754,7 +815,8 @@ pub fn run_c08(args: &Args, rec: &mut Recorder) {
         None
     });
     for k in ["pair.A_empty", "pair.disjoint", "pair.overlapping", "pair.with_twins", "pair.with_near_twins", "pair.with_MERGE_names_in_A", "pair.with_MERGE_names_in_B",
-        "identity.merge_empty", "identity.merge_copy", "identity.merge_into_empty", "chain.second_merge"] {
+        "identity.merge_empty", "identity.merge_copy", "identity.merge_into_empty", "chain.second_merge", "chain.sort_new_items_between_merges",
+        "pair.A_sorted_before_merge", "pair.A_has_A2ML_but_no_IF_DATA_and_B_has_IF_DATA", "pair.A_has_IF_DATA", "pair.B_has_IF_DATA"] {
         rec.floor(k, 5);
     }
     for kind in ["MEASUREMENT", "CHARACTERISTIC", "AXIS_PTS", "COMPU_METHOD", "COMPU_VTAB", "UNIT", "RECORD_LAYOUT", "TYPEDEF_STRUCTURE", "FRAME", "TRANSFORMER", "MEMORY_SEGMENT"] {
@@ -806,6 +868,32 @@ pub fn run_c09(args: &Args, rec: &mut Recorder) {
             let Some(tb) = idx_b.resolve(e.ctx.ns, &e.target).and_then(|v| v.first().copied()) else {
                 continue; // B is consistent, but be safe
             };
+            // same-name GROUP/FUNCTION unions: the referrer is A's element, members united
+            if (e.ctx.kind == "GROUP" || e.ctx.kind == "FUNCTION")
+                && ea.iter().any(|x| x.kind == e.ctx.kind && x.name == e.ctx.rname && x.marker != e.ctx.rmarker)
+            {
+                // the element that represents B's GROUP/FUNCTION is the one of that name: it must hold
+                // the reference (to the representative of the target) at the same site
+                let by_name = matches!(e.ctx.ns, Ns::Func | Ns::Grp);
+                let held = edges_r
+                    .iter()
+                    .filter(|x| x.ctx.kind == e.ctx.kind && x.ctx.rname == e.ctx.rname && x.ctx.site == e.ctx.site)
+                    .any(|x| {
+                        if by_name {
+                            return x.target == e.target;
+                        }
+                        idx_r.resolve(x.ctx.ns, &x.target).and_then(|v| v.first().copied()).is_some_and(|(_, mk)| mk == tb.1)
+                    });
+                rec.bump("edges.of_united_group_or_function");
+                if !held {
+                    rec.violation(
+                        &format!("reference held by B's GROUP/FUNCTION is not held by the same-name element after merge at site {}", e.ctx.site),
+                        &format!("{} {} -> {}", e.ctx.kind, e.ctx.rname, e.target),
+                        witness(&a0, &b0, ""),
+                    );
+                }
+                continue;
+            }
             // where is the referrer now?
             let (r_name, judged) = if e.ctx.rmarker != 0 {
                 let rep = er.iter().find(|x| x.kind == e.ctx.kind && x.marker == e.ctx.rmarker);
@@ -825,12 +913,6 @@ pub fn run_c09(args: &Args, rec: &mut Recorder) {
             };
             if !judged {
                 rec.bump("edges.not_judged(shared or not moved)");
-                continue;
-            }
-            // same-name GROUP/FUNCTION unions: the referrer is A's element, members united (C08's business)
-            if (e.ctx.kind == "GROUP" || e.ctx.kind == "FUNCTION")
-                && ea.iter().any(|x| x.kind == e.ctx.kind && x.name == e.ctx.rname && x.marker != e.ctx.rmarker)
-            {
                 continue;
             }
             // counterpart edge in R
